@@ -625,20 +625,24 @@ package types
 //@   for C18
 //@   safe
 //@   modifies nothing
+//@   ensures [fixedSizeHashesAlwaysPass] err == nil
 //@ func (psh PartSetHeader) ValidateBasic() (err error)
 //@   for C18
 //@   safe
 //@   modifies nothing
+//@   ensures [neverRefused] err == nil
 //@ func (blockID BlockID) ValidateBasic() (err error)
 //@   for C18
 //@   safe
 //@   modifies nothing
+//@   ensures [neverRefused] err == nil
 //@ func (part *Part) ValidateBasic() (err error)
 //@   for C18 C13
 //@   safe
 //@   requires part != nil
 //@   modifies nothing
 //@   ensures [sizeBounded] err == nil ==> len(part.Bytes) <= BlockPartSizeBytes
+//@   ensures [fullSizePartsAccepted] len(part.Bytes) <= BlockPartSizeBytes ==> err == nil
 
 //@ func (blockID *BlockID) IsZero() (r bool)
 //@   for C02 C03 C13 C11
@@ -1143,14 +1147,6 @@ package types
 //@   for C02 C03 C13
 //@   modifies nothing
 //@   ensures r <==> psh == other
-
-// A part or a validator set is refused only for what makes it invalid: a genuine full-size part (exactly
-// BlockPartSizeBytes, which is what NewPartSetFromData produces) is accepted.
-//@ aspect func (part *Part) ValidateBasic() (err error)
-//@   for C13
-//@   requires part != nil
-//@   modifies nothing
-//@   ensures [fullSizePartsAccepted] len(part.Bytes) <= BlockPartSizeBytes ==> err == nil
 
 // Rotation rescales into a window of twice the total power (PriorityWindowSizeFactor), the same window
 // the update pipeline uses.
